@@ -385,3 +385,141 @@ Proof.
   intros R H P. destruct (invs s R) as (_ & _ & _ & _ & I5). pose proof (t0_ok s I5 H) as W.
   destruct (up s); cbn in P; try discriminate; exact W.
 Qed.
+
+(* ------------------------------------------------------------------------------------------------ *)
+(* (iv), (v) verdicts                                                                               *)
+(* ------------------------------------------------------------------------------------------------ *)
+
+(* the transition with which park_timeout returns [v] to its caller *)
+Definition park_returns (s s' : st) (v : verdict) : Prop :=
+  stepF s AU = Some s' /\ up s' = UIdle /\ lastv s' = Some v.
+
+(* there are three such transitions: the store / swap of the first check_park that finds the token, and
+   the read of the generator parameter after the resume *)
+Lemma returns_cases s s' v : park_returns s s' v ->
+  (up s = UCp1Store /\ v = VOk) \/
+  (up s = UCp1Swap /\ pstate s = true /\ v = VOk) \/
+  (up s = UPara /\ v = verdict_of (para s) /\ now s' = now s).
+Proof.
+  intros (H & U & L). unfold stepF in H; cbn [step] in H; unfold ustep in H.
+  destruct (negb (running s)); [discriminate|].
+  destruct (up s) eqn:E; try discriminate H.
+  all: repeat match type of H with
+              | context [if ?b then _ else _] => destruct b eqn:?
+              | context [match ?x with _ => _ end] => destruct x eqn:?
+              end.
+  all: try discriminate H.
+  all: injection H as H; subst s'; cbn in U; try discriminate U.
+  all: unfold clear_tok in L; repeat match type of L with context [if ?b then _ else _] => destruct b eqn:? end; cbn in L.
+  all: try (left; split; [reflexivity | congruence]).
+  all: try (right; left; repeat split; congruence).
+  all: right; right; repeat split; congruence.
+Qed.
+
+(* Ok: the token was set and this call cleared it - by the returning access itself (first check_park) or
+   by the check_park after the resume ([ctok]) - or, only on a Park that has been parked on before
+   (ncall >= 2, never on a fresh Blocker), the coroutine was taken by an unparker whose token an EARLIER
+   call had already consumed ([WUn true]: his state.swap(true) precedes that call's clearing access, his
+   wait_co.take() came after the next call had suspended): the spurious wake-up of coroutine::park. *)
+Theorem verdict_ok s s' : ReachF s -> park_returns s s' VOk ->
+  (pstate s = true /\ (up s = UCp1Store \/ up s = UCp1Swap)) \/
+  (up s = UPara /\ ctok s = true) \/
+  (up s = UPara /\ wsrc s = WUn true /\ (2 <= ncall s)%nat).
+Proof.
+  intros R Hr. destruct (invs s R) as (_ & _ & I3 & _ & _).
+  destruct (returns_cases s s' VOk Hr) as [(E & _)|[(E & T & _)|(E & V & _)]].
+  - left. pose proof (store_tok s I3) as St. rewrite E in St. auto.
+  - left. auto.
+  - pose proof (ctok_ok s I3) as C. pose proof (s4 s I3) as S4. rewrite E in C.
+    assert (P : para s = None) by (destruct (para s) as [[|]|]; cbn in V; congruence).
+    destruct (C P) as [C1|C1]; [right; left; auto | right; right]. rewrite C1 in S4. auto.
+Qed.
+
+(* Timeout: the deadline of THIS call (call time + armed duration) has passed - or, only on a Park that has
+   been parked on before, the timer entry of an EARLIER timed call fired ([WTm true]: remove_timeout_handle
+   only requests the removal, the timer thread may already have popped the entry). *)
+Theorem verdict_timeout s s' : ReachF s -> park_returns s s' VTimeout ->
+  up s = UPara /\
+  ((exists c, call_deadline s = Some c /\ c <= now s') \/ (wsrc s = WTm true /\ (2 <= ncall s)%nat)).
+Proof.
+  intros R Hr. destruct (invs s R) as (_ & I2 & I3 & _ & _).
+  destruct (returns_cases s s' VTimeout Hr) as [(_ & X)|[(_ & _ & X)|(E & V & N)]]; try discriminate X.
+  split; [exact E|]. rewrite N.
+  pose proof (p_w s I3) as Pw. rewrite E in Pw. unfold pw in Pw.
+  pose proof (w_dl s I2) as Wd. pose proof (s4 s I3) as S4.
+  destruct (para s) as [[|]|]; cbn in V; try discriminate V.
+  destruct (wsrc s) as [|b|[|]| | |]; try contradiction; auto.
+Qed.
+
+(* Canceled: only if the cancel bit of the coroutine is set (any Park, fresh or not).  The bit is set by
+   Cancel::cancel only (ACnOr; the kernel half's own cancel() call sets it again when it is set). *)
+Theorem verdict_canceled s s' : ReachF s -> park_returns s s' VCanceled -> up s = UPara /\ cbit s = true.
+Proof.
+  intros R Hr. destruct (invs s R) as (_ & _ & I3 & _ & _).
+  destruct (returns_cases s s' VCanceled Hr) as [(_ & X)|[(_ & _ & X)|(E & V & N)]]; try discriminate X.
+  split; [exact E|].
+  pose proof (p_w s I3) as Pw. rewrite E in Pw. unfold pw in Pw.
+  destruct (para s) as [[|]|]; cbn in V; try discriminate V. exact Pw.
+Qed.
+
+(* a park on a fresh Blocker (first call on this Park object: ANewPark resets ncall) *)
+Definition fresh (s : st) : Prop := (ncall s <= 1)%nat.
+
+Corollary verdict_ok_fresh s s' : ReachF s -> fresh s -> park_returns s s' VOk ->
+  (pstate s = true /\ (up s = UCp1Store \/ up s = UCp1Swap)) \/ (up s = UPara /\ ctok s = true).
+Proof.
+  intros R F Hr. destruct (verdict_ok s s' R Hr) as [A|[A|(_ & _ & A)]]; auto. unfold fresh in F. lia.
+Qed.
+
+Corollary verdict_timeout_fresh s s' : ReachF s -> fresh s -> park_returns s s' VTimeout ->
+  exists c, call_deadline s = Some c /\ c <= now s'.
+Proof.
+  intros R F Hr. destruct (verdict_timeout s s' R Hr) as (_ & [A|(_ & A)]); auto. unfold fresh in F. lia.
+Qed.
+
+(* in terms of the duration the caller asked for: never before call time + d (d up to the cap of
+   AtomicDuration, about 292 years; beyond it the armed duration saturates, C08) *)
+Corollary verdict_timeout_fresh_requested s s' d : ReachF s -> fresh s -> park_returns s s' VTimeout ->
+  ud s = Some d -> ceil_ms d <= CAP -> tcall s + d <= now s'.
+Proof.
+  intros R F Hr Hd Hc. destruct (verdict_timeout_fresh s s' R F Hr) as (c & C & L).
+  destruct (invs s R) as (_ & _ & _ & _ & I5). pose proof (u_nonneg s I5) as N. rewrite Hd in N.
+  unfold call_deadline, armed_of in C. rewrite Hd in C.
+  destruct (dec (enc (Some d))) as [a|] eqn:A; [|discriminate]. injection C as C.
+  pose proof (armed_bounds d a N Hc A). lia.
+Qed.
+
+(* a timed-out call was a timed call *)
+Corollary verdict_timeout_needs_duration_fresh s s' : ReachF s -> fresh s -> park_returns s s' VTimeout -> ud s <> None.
+Proof.
+  intros R F Hr. destruct (verdict_timeout_fresh s s' R F Hr) as (c & C & _).
+  unfold call_deadline, armed_of in C. intros X. rewrite X in C. cbn in C. discriminate.
+Qed.
+
+(* (v) the two spurious sources need an earlier call on the same Park object *)
+Theorem spurious_needs_earlier_call s : ReachF s ->
+  (wsrc s = WUn true \/ wsrc s = WTm true) -> (2 <= ncall s)%nat.
+Proof.
+  intros R H. destruct (invs s R) as (_ & _ & I3 & _ & _). pose proof (s4 s I3) as S4.
+  destruct H as [H|H]; rewrite H in S4; exact S4.
+Qed.
+
+(* a stale unparker exists only after a token was consumed on this Park object *)
+Theorem stale_unparker_needs_consumed_token s i : ReachF s -> un s i = NTake true -> (1 <= nclr s)%nat.
+Proof. intros R H. destruct (invs s R) as (_ & _ & I3 & _ & _). exact (s3 s I3 i H). Qed.
+
+(* the cancel panic inside park (check_cancel after the resume, or in wait_kernel_yield) needs the cancel *)
+Theorem abort_needs_cancel s s' : stepF s AU = Some s' -> up s <> UDead -> up s' = UDead -> cbit s = true.
+Proof.
+  intros H N U. unfold stepF in H; cbn [step] in H; unfold ustep in H.
+  destruct (negb (running s)); [discriminate|].
+  destruct (up s) eqn:E; try discriminate H; try congruence.
+  all: repeat match type of H with
+              | context [if ?b then _ else _] => destruct b eqn:?
+              | context [match ?x with _ => _ end] => destruct x eqn:?
+              end.
+  all: try discriminate H.
+  all: injection H as H; subst s'; unfold clear_tok in U;
+       repeat match type of U with context [if ?b then _ else _] => destruct b eqn:? end; cbn in U; try discriminate U.
+  all: unfold canceled in *; match goal with X : _ && _ = true |- _ => apply andb_true_iff in X; destruct X; assumption end.
+Qed.
